@@ -52,6 +52,12 @@ class HarnessRaise(Exception):
     """What a formula raises when its switch is on (maps to the error kind EOther)."""
 
 
+class HarnessAbort(BaseException):
+    """Raised instead of HarnessRaise by switches k with k % 3 == 2: an interruption that is
+    NOT an Exception subclass (like KeyboardInterrupt) passing through the engine; do_request
+    turns it into HarnessRaise once it has left the engine."""
+
+
 # ---------------------------------------------------------------------------------------
 # periods
 # ---------------------------------------------------------------------------------------
@@ -199,6 +205,8 @@ def ev(sys, switches, e, ent, sim, period, parameters):
         return numpy.full(pop.count, int(z))
     if tag == "raise":
         if e[1] in switches:
+            if e[1] % 3 == 2:
+                raise HarnessAbort(f"switch {e[1]}")
             raise HarnessRaise(f"switch {e[1]}")
         return numpy.full(pop.count, 0)
     raise AssertionError(tag)
@@ -389,6 +397,13 @@ def period_arg(r):
 
 
 def do_request(sim, sys, switches, r):
+    try:
+        return _do_request(sim, sys, switches, r)
+    except HarnessAbort as e:
+        raise HarnessRaise(str(e)) from None
+
+
+def _do_request(sim, sys, switches, r):
     kind = r[0]
     if kind == "switch":
         if r[2]:
@@ -827,7 +842,7 @@ def gen_requests(rng, sys, pop, profile):
         elif r < 0.95:
             reqs.append(["get", i, gen_period(rng, u, year=year)])
         else:
-            reqs.append(["delete", i, rng.choice([None, gen_period(rng, rng.choice(["year", u]), year=year)])])
+            reqs.append(["delete", i, rng.choice([None, gen_period(rng, rng.choice(["year", u, "month", "day", "week"]), year=year)])])
     return reqs
 
 
